@@ -276,6 +276,13 @@ func setField(f reflect.Value, v *cval, name string, owner reflect.Type) error {
 	return nil
 }
 
+// scribble overwrites a buffer the way a caller does that reuses its receive buffer for the next packet
+func scribble(b []byte) {
+	for i := range b {
+		b[i] = 0xA5
+	}
+}
+
 func safeMarshal(v interface{}) (b []byte, err error) {
 	defer func() {
 		if p := recover(); p != nil {
@@ -424,10 +431,14 @@ func init() {
 				return nil // request wrappers are only ever sent
 			}
 			// reference-built bytes decode to the value
-			if o, err := safeDecodeUnknown(want); err != nil {
+			wantBuf := append([]byte{}, want...)
+			if o, err := safeDecodeUnknown(wantBuf); err != nil {
 				rep.Disagree("C02:reference-bytes-not-decoded:"+cls, fmt.Sprintf("%s (%s): %v", c.Name, c.Pat, err), info)
 			} else if !reflect.DeepEqual(o, iv) {
 				rep.Disagree("C02:reference-bytes-decode-differently:"+cls, fmt.Sprintf("%s (%s): decoded %s", c.Name, c.Pat, brief(o)), info)
+			} else if scribble(wantBuf); !reflect.DeepEqual(o, iv) {
+				// the caller's receive buffer is the caller's: what was decoded from it must not change when it is reused
+				rep.Disagree("C02:decoded-value-aliases-input:"+cls, fmt.Sprintf("%s (%s): the decoded value changed when the input buffer was overwritten afterwards", c.Name, c.Pat), info)
 			}
 			// C01: determinism and round trip of the code's own bytes
 			c01++
@@ -435,16 +446,22 @@ func init() {
 			if !bytes.Equal(got, again) {
 				rep.Disagree("C01:marshal-not-deterministic:"+cls, c.Name+": two Marshal calls gave different bytes", info)
 			}
-			if o, err := safeDecodeUnknown(got); err != nil {
+			gotBuf := append([]byte{}, got...)
+			if o, err := safeDecodeUnknown(gotBuf); err != nil {
 				rep.Disagree("C01:round-trip-error:"+cls, fmt.Sprintf("%s (%s): DecodeUnknownObject(Marshal(v)): %v", c.Name, c.Pat, err), info)
 			} else if !reflect.DeepEqual(o, iv) {
 				rep.Disagree("C01:round-trip-differs:"+cls, fmt.Sprintf("%s (%s): DecodeUnknownObject(Marshal(v)) = %s", c.Name, c.Pat, brief(o)), info)
+			} else if scribble(gotBuf); !reflect.DeepEqual(o, iv) {
+				rep.Disagree("C01:decoded-value-aliases-input:"+cls, fmt.Sprintf("%s (%s): the value DecodeUnknownObject returned changed when the input buffer was overwritten afterwards", c.Name, c.Pat), info)
 			}
 			if val.Kind() == reflect.Ptr { // named type
-				if o, err := safeDecodeInto(got, val.Type()); err != nil {
+				gotBuf2 := append([]byte{}, got...)
+				if o, err := safeDecodeInto(gotBuf2, val.Type()); err != nil {
 					rep.Disagree("C01:round-trip-error-named:"+cls, fmt.Sprintf("%s (%s): Decode(Marshal(v)): %v", c.Name, c.Pat, err), info)
 				} else if !reflect.DeepEqual(o, iv) {
 					rep.Disagree("C01:round-trip-differs-named:"+cls, fmt.Sprintf("%s (%s): Decode(Marshal(v)) = %s", c.Name, c.Pat, brief(o)), info)
+				} else if scribble(gotBuf2); !reflect.DeepEqual(o, iv) {
+					rep.Disagree("C01:decoded-value-aliases-input-named:"+cls, fmt.Sprintf("%s (%s): the value Decode filled in changed when the input buffer was overwritten afterwards", c.Name, c.Pat), info)
 				}
 			}
 			// the bytes the code returned must not be disturbed by a later Marshal of another value
